@@ -124,16 +124,18 @@ class Prop(BaseProp):
             return res
         page = rstscan.Page(o0.value)
         oracle.compare_sequence(res, exp, oracle.observed_top(page), "base", getattr(mod, "unasserted", ()))
-        k = 6 if self.tier == "quick" else 9
+        k = 7 if self.tier == "quick" else 10
         differing = 0
         for v in range(k):
-            kind = ["ws", "comments", "case", "docindent", "crlf", "all", "all", "crlf", "all"][v]
+            kind = ["ws", "comments", "case", "docindent", "crlf", "all", "docopen", "all", "crlf", "all"][v]
             if kind == "ws":
                 lay = Layout(rng, comments=0.0, wild=0.9, case="lower", doc_indent="")
             elif kind == "comments":
                 lay = Layout(rng, comments=0.9, wild=0.2, case="lower", doc_indent="")
             elif kind == "case":
                 lay = Layout(rng, comments=0.0, wild=0.0, case=rng.choice(["upper", "mixed"]), doc_indent="")
+            elif kind == "docopen":
+                lay = Layout(None, doc_indent=rng.choice([None, None, "  ", "\t"]))
             elif kind == "docindent":
                 ind = "".join(rng.choice(" \t") for _ in range(rng.randint(1, 10)))
                 lay = Layout(None, doc_indent=ind)
@@ -143,6 +145,25 @@ class Prop(BaseProp):
             else:
                 lay = Layout(rng, comments=0.6, wild=0.6, case="random")
             t = render(mod, lay)
+            if kind == "docopen":
+                # only the line that OPENS a doccomment moves: more blanks/tabs in front of it, a bracket comment in front of
+                # it, or the doccomment starts on the line of the previous command's ')'. The block itself (and its closing
+                # line, on which the block indentation is measured) stays where it was.
+                ls = t.split("\n")
+                for i_, l_ in enumerate(ls):
+                    if l_.lstrip(" \t").startswith("#[[[") and not l_.lstrip(" \t").startswith("#[[[["):
+                        how = rng.choice(["blanks", "tab", "comment", "join", "none"])
+                        if how == "blanks":
+                            ls[i_] = " " * rng.randint(1, 9) + l_
+                        elif how == "tab":
+                            ls[i_] = "\t" * rng.randint(1, 2) + l_
+                        elif how == "comment":
+                            ls[i_] = l_[:len(l_) - len(l_.lstrip(" \t"))] + "#[[ moved ]] " + l_.lstrip(" \t")
+                        elif how == "join" and i_ > 0 and ls[i_ - 1].rstrip().endswith(")") and "#" not in ls[i_ - 1]:
+                            ls[i_ - 1] = ls[i_ - 1].rstrip() + " " + l_.lstrip(" \t")
+                            ls[i_] = None
+                        res.count("doc_opening_lines_moved", how != "none")
+                t = "\n".join(x for x in ls if x is not None)
             if kind in ("ws", "all") and rng.random() < 0.5:
                 t = t.rstrip("\r\n")                 # the file does not end with a newline
                 res.count("variants_without_final_newline")
